@@ -244,7 +244,40 @@ var knobSizeArgs = map[string]bool{
 	"rare/pkg/slicepool.NewIntPool": true,
 }
 
+// constContext collects the identifiers that sit where Go demands a constant expression (a const declaration, an
+// array length): a knob cannot be inserted there.
+func constContext(f *ast.File) map[token.Pos]bool {
+	out := map[token.Pos]bool{}
+	mark := func(n ast.Node) {
+		if n == nil {
+			return
+		}
+		ast.Inspect(n, func(x ast.Node) bool {
+			if id, ok := x.(*ast.Ident); ok {
+				out[id.Pos()] = true
+			}
+			return true
+		})
+	}
+	ast.Inspect(f, func(x ast.Node) bool {
+		switch v := x.(type) {
+		case *ast.GenDecl:
+			if v.Tok == token.CONST {
+				mark(v)
+				return false
+			}
+		case *ast.ArrayType:
+			if v.Len != nil {
+				mark(v.Len)
+			}
+		}
+		return true
+	})
+	return out
+}
+
 func (in *instr) replaceSeams() {
+	inConst := constContext(in.file)
 	astutil.Apply(in.file, func(c *astutil.Cursor) bool {
 		if ce, ok := c.Node().(*ast.CallExpr); ok && len(ce.Args) >= 1 {
 			var fid *ast.Ident
@@ -266,7 +299,7 @@ func (in *instr) replaceSeams() {
 		}
 		if id, ok := c.Node().(*ast.Ident); ok {
 			if cn, ok := in.info.Uses[id].(*types.Const); ok && cn.Pkg() != nil && knobConsts[cn.Pkg().Path()+"."+cn.Name()] {
-				if _, isSel := c.Parent().(*ast.SelectorExpr); !isSel {
+				if _, isSel := c.Parent().(*ast.SelectorExpr); !isSel && !inConst[id.Pos()] {
 					in.site(id.Pos(), "knob")
 					c.Replace(call(sel("simrt", "KnobInt"), strLit(cn.Pkg().Path()+"."+cn.Name()), ast.NewIdent(id.Name)))
 					return false
@@ -687,7 +720,18 @@ func (in *instr) deferStmt(d *ast.DeferStmt) ast.Stmt {
 				return d
 			}
 		}
-		in.fail(c.Pos(), "deferred visible operation ("+k+") with arguments is not supported")
+		// defer x.Store(v) / defer atomic.AddInt64(&n, -1): function value and arguments are evaluated at defer time
+		// (as in the original), the call and the yield after it run when the function returns
+		if sig, ok := in.info.TypeOf(c.Fun).(*types.Signature); ok && !sig.Variadic() && len(c.Args) <= 3 && sig.Results().Len() <= 1 {
+			name := fmt.Sprintf("Deferred%d", len(c.Args))
+			if sig.Results().Len() == 1 {
+				name += "R"
+			}
+			args := append([]ast.Expr{strLit(in.site(c.Pos(), k)), c.Fun}, c.Args...)
+			d.Call = call(sel("simrt", name), args...)
+			return d
+		}
+		in.fail(c.Pos(), "deferred visible operation ("+k+") of this shape is not supported")
 		return d
 	}
 }
